@@ -67,8 +67,8 @@ def key_of(item):
     return json.dumps({k: v for k, v in item.items() if k != 'text' or item.get('k') == 'junk'}, sort_keys=True)
 
 
-def run_tool(args, stdin_data=None, feeder=None, timeout=60):
-    p = subprocess.Popen([PY, os.path.join(REPO, 'main.py')] + args, cwd=REPO, env=ENV, stdin=subprocess.PIPE,
+def run_tool(args, stdin_data=None, feeder=None, timeout=60, env=None):
+    p = subprocess.Popen([PY, os.path.join(REPO, 'main.py')] + args, cwd=REPO, env=env or ENV, stdin=subprocess.PIPE,
                          stdout=subprocess.PIPE, stderr=subprocess.PIPE)
     if feeder is not None:
         bufs = {}
@@ -126,7 +126,9 @@ def one_case(case):
                 pass
     rc, out, err = run_tool(opts + ['-p'], feeder=feeder)
     obs['pipe'] = (rc, out, err)
-    rc, out, err = run_tool(opts + ['-r', PY, CHILD, sched] + extra, b'resume\n')
+    # the tool's own environment may already hold a WAYLAND_DEBUG (unset, or some other value than 1): the program gets 1
+    wd = case.get('wdebug')
+    rc, out, err = run_tool(opts + ['-r', PY, CHILD, sched] + extra, b'resume\n', env=None if wd is None else dict(ENV, WAYLAND_DEBUG=wd))
     obs['run'] = (rc, out, err)
     return obs
 
@@ -173,7 +175,7 @@ def run(ctx):
                     n = len(cases)
                     cases.append({'tmp': tmp, 'n': n, 'lines': lines, 'chunks': chunks, 'status': statuses[n % len(statuses)],
                                   'extra': EXTRA[n % len(EXTRA)], 'delays': [0 if fast else r.choice([0, 0.03]) for _ in chunks],
-                                  'linger': 0 if n % 2 else 0.05, 'want': want, 'session': k, 'opts': ['--supress'] if sup else [],
+                                  'linger': 0 if n % 2 else 0.05, 'want': want, 'session': k, 'opts': ['--supress'] if sup else [], 'wdebug': [None, None, '0', 'client', '', 'server', '1'][n % 7],
                                   'chatter': [lines[i] for i, e in enumerate(s['events']) if e['in']['e'] == 'junk']})
         # the writer schedules of the model (RunMode!ChildWrite: every composition of the 6 abstract bytes of streams A / B),
         # executed for real: abstract bytes are the two halves of line 1, its newline, the two halves of line 2, its newline
@@ -236,7 +238,7 @@ def run(ctx):
         for case, obs in zip(cases, results):
             rep.case(json.dumps([case['chunks'], case['status'], case['extra']]))
             rp = {'kind': 'modes', 'chunks': case['chunks'], 'status': case['status'], 'extra': case['extra'], 'delays': case['delays'], 'want': case['want'],
-                  'linger': case['linger'], 'close_err': case.get('close_err', False), 'enc': case.get('enc', 'utf-8'), 'opts': case.get('opts', [])}
+                  'linger': case['linger'], 'close_err': case.get('close_err', False), 'enc': case.get('enc', 'utf-8'), 'opts': case.get('opts', []), 'wdebug': case.get('wdebug')}
             shown = {}
             for mode in ('file', 'pipe', 'run'):
                 rc, out, err = obs[mode]
@@ -320,7 +322,7 @@ def replay(ctx, data):
     tmp = tempfile.mkdtemp(prefix='c13r-', dir=os.path.join(tlc.OUT, 'tmp'))
     try:
         case = {'tmp': tmp, 'n': 0, 'lines': [], 'chunks': data['chunks'], 'status': data['status'], 'extra': data['extra'],
-                'delays': data['delays'], 'linger': data.get('linger', 0), 'close_err': data.get('close_err', False), 'enc': data.get('enc', 'utf-8'), 'opts': data.get('opts', [])}
+                'delays': data['delays'], 'linger': data.get('linger', 0), 'close_err': data.get('close_err', False), 'enc': data.get('enc', 'utf-8'), 'opts': data.get('opts', []), 'wdebug': data.get('wdebug')}
         obs = one_case(case)
         for mode in ('file', 'pipe', 'run'):
             rc, out, err = obs[mode]
